@@ -66,6 +66,12 @@ def positions(pa):
 
 RULE_PATHS = [P((("prim", "a"),)), P((M,)), P((("prim", "lst"), Ls)), P(())]
 
+# path arguments whose last part is equal in value but different in type (1 == 1.0 == True): an int or bool part
+# addresses a list index or a mapping key, a float part a mapping key only.  All of them are loaded in ONE process
+# (both orders: two units), on documents with a list / a mapping at that place
+PARGS_CONF = [P((("prim", "b"), ("prim", x))) for x in (1, 1.0, True, 0, 0.0, False)]
+CONF_DOCS = [{"a": a, "b": b} for b in ([7, 8, 9], {1: 8, 0: 7}, {1.0: 8, False: 7}, [[1], [2]]) for a in (8, 7, None, [2])]
+
 
 def documents(tier):
     vals = [0, 1, 2, 1.5, True, None, "", "a", "x", [], [1], [1, 2], {}, {"x": 1}, {"x": [1]}, {"a": 1, "x": 1}]
@@ -121,13 +127,22 @@ def prepare(tier):
 
 
 def units(tier):
-    return gen.chunks(len(_cases(tier)[0]), 16) + [["esc"]]
+    return gen.chunks(len(_cases(tier)[0]), 16) + [["esc"], ["conf", 0], ["conf", 1]]
 
 
 def run_unit(unit, tier):
     res = Result()
     if unit[0] == "esc":
         check_escaped(res)
+        return res
+    if unit[0] == "conf":
+        pargs = PARGS_CONF if unit[1] == 0 else PARGS_CONF[::-1]
+        for pi, pa in enumerate(pargs):
+            for pos, cond in positions(pa):
+                shared = {}
+                for di, doc in enumerate(CONF_DOCS):
+                    check_case(res, pos, pa, T.rule(RULE_PATHS[0], cond), doc, key=("conf", unit[1], pi, pos, di), shared=shared,
+                               history=CONF_DOCS[:di])
         return res
     cs, docs = _cases(tier)
     for i in range(unit[0], unit[1]):
